@@ -213,7 +213,7 @@ Theorem C07_order_inv_copy :
        items_of w' (n_content n') = Some items' /\ Ordered T (n_type n) v items').
 Proof. exact order_inv_copy. Qed.
 
-(* [U] ... for move_element_here[_at]: inside the same parent (Ops.move_element_position with the bound of fix 4d404e9), and
+(* [U] ... for move_element_here[_at]: inside the same parent (Ops.move_element_position with the bound of fix fd5588f), and
    from another parent in the same or another model — there the destination AND every other node keep their order (for
    every version): all steps before the insertion only shrink child lists as subsequences.  The remaining combination
    "parent link names h but the models differ" cannot occur in a world satisfying C03's invariant and is not covered. *)
@@ -618,7 +618,7 @@ Proof. exact api_built_reloads_example. Qed.
    editing calls: ECUC-QUERY-EXPRESSION n10 in an AUTOSAR 4.0.1 file is identifiable and has MIXED content; the insertion range
    of CONFIG-ELEMENT-DEF-GLOBAL-REF is (0, 1), create_sub_element_at(.., 0) succeeds and puts the new element in FRONT of the
    SHORT-NAME.  The child list is still in specification order (Mixed: any order), but item_name (which reads the first item)
-   answers None while the path index keeps /n1/n3/n5/n7/n10; the loader (fix 44e5d22) reports RequiredSubelementMissing. *)
+   answers None while the path index keeps /n1/n3/n5/n7/n10; the loader (fix f86b268) reports RequiredSubelementMissing. *)
 Theorem C07_insert_before_short_name_refuted :
   forall (tab_el tab_en : nametab) (root_attrs : list (N * cdata)),
   exists (w : world) (h s c : id) (nh : node) (w' : world) (n ns : node),
